@@ -203,6 +203,64 @@ func runC15(r *Report) {
 		})
 	}
 	r.Sentinel("R2.ready", nAdd, 1)
+	// the announced interval is only ever raised by a fallback: where updateInterval (or any code of package tracker)
+	// stores a constant into base.interval, the value stored before is known not to exceed it — otherwise a tracker
+	// that announced two hours (or BEP 31 "retry in never") is contacted again after the fallback's fifteen minutes
+	// as soon as one announce fails.
+	if ivF := p.Field("tracker", "base", "interval"); r.Anchor("R2", "tracker.base.interval", ivF != nil) {
+		nC := 0
+		tt := &Taint{stores: map[*ssa.Function]map[*types.Var]bool{}}
+		for _, f := range p.SrcFuncs() {
+			if relPkg(f) != "tracker" {
+				continue
+			}
+			allInstrs(f, func(in ssa.Instruction) {
+				st, ok := isStoreToField(in, ivF)
+				if !ok {
+					return
+				}
+				k, isConst := constInt(st.Val)
+				if _, isC := st.Val.(*ssa.Const); !isC || !isConst {
+					return
+				}
+				nC++
+				r.Fn(f)
+				// what is known about the stored value here: a guard on a load of the same field
+				hi := int64(posInf)
+				for _, g := range guardsOf(st.Block()) {
+					op, x, y, okc := cmpFact(g)
+					if !okc {
+						continue
+					}
+					fx, _ := loadedField(x)
+					fy, _ := loadedField(y)
+					_ = tt
+					if fx == ivF {
+						if c, okk := constInt(y); okk {
+							switch op {
+							case token.LSS:
+								hi = min(hi, c-1)
+							case token.LEQ, token.EQL:
+								hi = min(hi, c)
+							}
+						}
+					} else if fy == ivF {
+						if c, okk := constInt(x); okk {
+							switch op {
+							case token.GTR:
+								hi = min(hi, c-1)
+							case token.GEQ, token.EQL:
+								hi = min(hi, c)
+							}
+						}
+					}
+				}
+				r.Check(hi <= k, "R2", fname(f)+"/interval-fallback-never-lowers", st.Pos(), "a constant replaces the stored interval only where the stored one is known not to be larger",
+					fmt.Sprintf("%s stores the constant %d ns into the tracker's interval on a path where the interval stored before is not known to be at most that: an announced interval of two hours (or `retry in never`) is replaced by the fallback after one failed or interval-less reply, and the tracker is contacted again too early", fname(f), k))
+			})
+		}
+		r.Sentinel("R2.fallback", nC, 1)
+	}
 	// torrent side: one ready tracker per round
 	if ta := p.Func("tor", "trackerAnnounce"); r.Anchor("R2", "tor.trackerAnnounce", ta != nil) {
 		r.Fn(ta)
